@@ -94,6 +94,28 @@ def main():
                         detail={"a": {"args": list(ref_args), "obs": ref}, "b": {"args": list(args), "obs": o}},
                         replay={"cmd": cmd, "args_a": list(ref_args), "args_b": list(args)})
                 break
+    # one problem, one place: whichever command reports a lexical / syntax problem of a file reports it at the same
+    # line:column (C05: a label covers the text it is about, also on the terminal)
+    by_args = {}
+    for key, o in zip(keys, obs):
+        by_args.setdefault(key[1], {})[key[0]] = o
+    ncross = 0
+    for args, per in by_args.items():
+        if "check" not in per:
+            continue
+        ref = set(tuple(x) for x in per["check"]["located"] if x[0] in ("P0002", "P0031"))
+        for cmd in ("echo", "tokenize"):
+            if cmd not in per:
+                continue
+            ncross += 1
+            got = set(tuple(x) for x in per[cmd]["located"] if x[0] in ("P0002", "P0031") and (cmd == "echo" or x[0] == "P0031"))
+            want = ref if cmd == "echo" else set(x for x in ref if x[0] == "P0031")
+            bad = (got != want) if cmd == "echo" else not (got <= want)
+            if bad:
+                rep.add("same-problem-different-place:%s-vs-check" % cmd, labels={cmd, "relational"},
+                        detail={"args": list(args), "check": sorted(ref), cmd: sorted(got)},
+                        replay={"cmd": cmd, "args": [clidrv.path_of(a) for a in args]})
+    cov["cross_command_position_comparisons"] = ncross
     cov["invocations"] = len(keys)
     cov["traces_validated_against_impl"] = len(keys)
     cov["denotation_groups_compared"] = ngroups
